@@ -20,6 +20,9 @@ from .queries import QResult, finish, MAX_VIOLATIONS
 FLAGS = {0x01: "ALL", 0x02: "NONE", 0x03: "SINGLE", 0x41: "InputsOutputs", 0x42: "Inputs", 0x43: "InputsOutput", 0x81: None, 0x82: None, 0x83: None, 0xc1: None, 0xc2: None, 0xc3: None}
 
 
+STANDARD = set(FLAGS)
+
+
 def SHA256(seq):
     return be_bytes(uf("SHA256", SEQ, z3.BitVecSort(256))(seq), 32)
 
@@ -35,8 +38,9 @@ def native_checksig():
     return req, nat
 
 
-def q_checksig(env, max_n=2, name=None):
-    qr = QResult(name or f"checksig_n{max_n}")
+def q_checksig(env, max_n=2, flags=(0x41, 0x01, 0xc3, 0x40), part="all", min_n=1, name=None):
+    """flags: the sighash flag bytes the signature items may end in (plus every non-flag byte); None = all 256 byte values"""
+    qr = QResult(name or f"checksig_{part}_n{max_n}")
     P = env.P
     P.enums.setdefault("Sign", {"Minus": 0, "NoSign": 1, "Plus": 2})
     PK, FORMAT_OK, ON_CURVE, KIND, KINDS = point_models()
@@ -45,6 +49,7 @@ def q_checksig(env, max_n=2, name=None):
     PRE = lambda fl: uf("SIGHASH_PREIMAGE", z3.BitVecSort(8), SEQ)(fl)
     PRE_OK = lambda fl: uf("SIGHASH_PREIMAGE_OK", z3.BitVecSort(8), z3.BoolSort())(fl)
     f = env.fn("script_matching::<impl interpreter::Interpreter>::match_opcode")
+    ALLFLAGS = set(P.enums["SigHash"].values())
 
     def m_preimage(ex, a, callee, canon):
         tx, n, flag, script, value = a
@@ -57,6 +62,7 @@ def q_checksig(env, max_n=2, name=None):
             ex.len_vars = {}
         if pre.get_id() not in ex.len_vars:
             ex.len_vars[pre.get_id()] = z3.BitVec(f"preimage_len_{flag.discr}", 64)
+            ex.__dict__.setdefault("_keep_alive", []).append(pre)   # ids key the table: the term must stay alive
         return ok(Bytes(pre))
 
     def m_verify_prehashed(ex, a, callee, canon):
@@ -107,8 +113,15 @@ def q_checksig(env, max_n=2, name=None):
         p.set(ListV(list(v.f[:ca])))
         return tail
 
+    def m_list_reverse(ex, a, callee, canon):
+        p = a[0]
+        while isinstance(p.get(), Ptr):
+            p = p.get()
+        p.set(ListV(list(reversed(p.get().f))))
+        return UNIT
+
     R = re.compile
-    CM = [(R(r"^<Vec<(\w+::)*ScriptBit> as Index<RangeFrom<usize>>>::index$"), m_list_range_from), (R(r"^Vec::split_off$"), m_split_off),
+    CM = [(R(r"^core::slice::<impl \[Vec<u8>\]>::reverse$"), m_list_reverse), (R(r"^<Vec<(\w+::)*ScriptBit> as Index<RangeFrom<usize>>>::index$"), m_list_range_from), (R(r"^Vec::split_off$"), m_split_off),
           (R(r"sighash_preimage_impl$"), m_preimage), (R(r"VerifyPrimitive<.*>>::verify_prehashed$"), m_verify_prehashed),
           (R(r"(^|::)Script::to_asm_string$|to_hex$"), m_opaque_string), (R(r"(^|::)_print$|^std::io::_print$"), m_print)]
     smod = [m for m in SMODELS if m[1].__name__ not in ("m_point_from_bytes", "m_vk_from_point", "m_affine_from_point", "m_ctoption_unwrap", "m_from_sec1", "m_verify_prehashed")]
@@ -135,11 +148,22 @@ def q_checksig(env, max_n=2, name=None):
         else:
             qr.undecided.append(what + " — not reproduced natively (native problems: " + json.dumps(probs)[:240] + ")")
 
+    _ps = {}
+
     def sat(pc, *extra):
-        st = {}
-        r = SE.check_sat(list(pc), list(extra), st)
-        qr.queries += st.get("queries", 0)
-        qr.solver_s += st.get("solver_s", 0.0)
+        """one abstraction + solver per path (keyed by the identity of the path-condition list), reused for all questions about it"""
+        key = id(pc)
+        ent = _ps.get(key)
+        if ent is None or ent[0] is not pc:
+            _ps.clear()
+            st = {}
+            ent = (pc, SE.SeqEq(list(pc), stats=st), st)
+            _ps[key] = ent
+        se, st = ent[1], ent[2]
+        q0, t0 = st.get("queries", 0), st.get("solver_s", 0.0)
+        r = se._check(*[se.abstract(e) for e in extra])
+        qr.queries += st.get("queries", 0) - q0
+        qr.solver_s += st.get("solver_s", 0.0) - t0
         if r == z3.unknown:
             qr.undecided.append("solver unknown")
         return r
@@ -192,7 +216,7 @@ def q_checksig(env, max_n=2, name=None):
                 report(f"{what}: the value handed to the sighash is not the declared value of the spent output", "declared value")
 
     # ------------------------------------------------------------ OP_CHECKSIG / OP_CHECKSIGVERIFY
-    for op in ("OP_CHECKSIG", "OP_CHECKSIGVERIFY"):
+    for op in (("OP_CHECKSIG", "OP_CHECKSIGVERIFY") if part in ("all", "single") else ()):
         opbyte = P.enums["OpCodes"][op]
         for depth, siglen, pklen, has_lock, has_sats, idx, cs in ([(3, 9, 33, True, True, 0, c) for c in (0, 2, 3, 4)] + [(2, 9, 33, True, True, 0, 3), (1, 9, 33, True, True, 0, 0), (0, 9, 33, True, True, 0, 0),
                                                                                                                          (2, 0, 33, True, True, 0, 0), (2, 1, 33, True, True, 0, 0), (2, 9, 0, True, True, 0, 0), (2, 9, 65, True, True, 0, 0),
@@ -216,6 +240,8 @@ def q_checksig(env, max_n=2, name=None):
                 if siglen:
                     # a stack item that is a complete DER string without a flag byte is outside the bound
                     ctx.assumptions.append(z3.Not(DER_VALID(seq_of(ctx.sig))))
+                    if flags is not None:
+                        ctx.assumptions.append(z3.Or(*[ctx.sig[-1] == k for k in flags], z3.And(*[ctx.sig[-1] != k for k in ALLFLAGS])))
                 ctx.assumptions.append(z3.Implies(ON_CURVE(seq_of(ctx.pk)), z3.Or(KIND(seq_of(ctx.pk)) == 2, KIND(seq_of(ctx.pk)) == 3)))
                 ctx.assumptions.append(z3.ULE(KIND(seq_of(ctx.pk)), 3))
                 st = state_of(ctx, items, cs)
@@ -263,30 +289,39 @@ def q_checksig(env, max_n=2, name=None):
                         report(f"{what}: accepts although the spending context is incomplete or the operands are missing")
                     continue
                 check_preimage_calls(r, what, c, cs, u, L, idx)
-                # flag byte cases decided on the path: enumerate feasible standard flags
+                # the flag the path committed to (the preimage call records it); paths without a preimage call rejected before it
                 fb = c.sig[-1]
-                is_flag = z3.Or(*[fb == k for k in FLAGS])
-                if sat(r.pc, acc, z3.Not(is_flag)) != z3.unsat:
-                    report(f"{what}: accepts a signature whose last byte is not one of the twelve standard sighash flag bytes")
-                for k in FLAGS:
+                calls = [kw for nm, kw in getattr(r, "recorded", []) if nm == "preimage"]
+                if calls:
+                    ks = sorted({kw["flag"].discr for kw in calls})
+                else:
+                    ks = sorted(ALLFLAGS)
+                    if sat(r.pc, acc) != z3.unsat:
+                        report(f"{what}: accepts without computing a sighash preimage")
+                for k in ks:
                     kk = z3.BitVecVal(k, 8)
+                    if calls and sat(r.pc, fb != kk) != z3.unsat:
+                        report(f"{what}: the sighash flag used ({k:#04x}) is not the last byte of the signature item")
                     good = valid_single(c, c.sig, c.pk, kk)
-                    if sat(r.pc, fb == kk, acc, z3.Not(good)) != z3.unsat:
-                        # which part? accepts through the byte-reversed digest?
+                    if calls and k in STANDARD and sat(r.pc, fb == kk, acc, z3.Not(good)) != z3.unsat:
                         zrev = REDUCE(z3.Concat(*list(reversed(SHA256(seq_of(SHA256(PRE(kk))))))))
-                        via_rev = sat(r.pc, fb == kk, acc, z3.Not(good), VERIFY(seq_of(c.pk), zrev, seq_of(c.sig[:-1]))) == z3.sat
+                        # explained only by a verification over the reversed digest?
+                        via_rev = sat(r.pc, fb == kk, acc, z3.Not(good), z3.Not(VERIFY(seq_of(c.pk), zrev, seq_of(c.sig[:-1])))) == z3.unsat
+                        if __import__("os").environ.get("MIRSYM_DEBUG"):
+                            print("DEBUG", what, "flag", k, "ret", r.ret.variant, "calls", len(calls), "verify", len([1 for nm, kw in r.recorded if nm == "verify"]), file=__import__("sys").stderr)
+                            print("   pc tail", [str(x)[:90] for x in r.pc][-6:], file=__import__("sys").stderr)
                         if via_rev:
-                            report(f"{op}: accepts a signature that is valid only over the BYTE-REVERSED double-SHA256 of the sighash preimage (flag {k:#04x}): not a valid signature over the specified preimage", "byte-reversed sighash")
+                            report(f"{op}: accepts a signature that is valid only over the BYTE-REVERSED double-SHA256 of the sighash preimage: not a valid signature over the specified preimage", "byte-reversed sighash")
                         else:
-                            report(f"{what}: accepts (flag {k:#04x}) although the signature is not valid DER, the key not a curve point, or ECDSA verification over double-SHA256(preimage selected by the flag byte) does not hold", "accepted=true")
-                    if sat(r.pc, fb == kk, z3.Not(acc), good) != z3.unsat:
+                            report(f"{what}: accepts (flag {k:#04x}) although the item minus its flag byte is not a valid DER signature, the key not a curve point, or ECDSA verification over double-SHA256(preimage selected by the flag byte) does not hold", "accepted=true")
+                    if k in STANDARD and sat(r.pc, fb == kk, z3.Not(acc), good) != z3.unsat:
                         report(f"{what}: rejects (flag {k:#04x}) a valid signature by the supplied key over the specified preimage", "spend signed through the API")
             finish(qr, ex)
 
     # ------------------------------------------------------------ OP_CHECKMULTISIG / OP_CHECKMULTISIGVERIFY
-    for op in ("OP_CHECKMULTISIG", "OP_CHECKMULTISIGVERIFY"):
+    for op in (("OP_CHECKMULTISIG", "OP_CHECKMULTISIGVERIFY") if part in ("all", "multi") else ()):
         opbyte = P.enums["OpCodes"][op]
-        for n in range(1, max_n + 1):
+        for n in range(min_n, max_n + 1):
             for m in range(1, n + 1):
                 u, L, cs = m + 1, n + 3, 0
                 what = f"{op} {m}-of-{n}"
